@@ -1,7 +1,8 @@
 ----------------------------- MODULE TraceClean -----------------------------
 (* Validates executions recorded from the real `Storage::clean` (8 peers, random delegate sets,  *)
 (* random namespace states, schedules of up to 5 clean / fetch steps) against Clean.tla.         *)
-(* Records: {op: "reset" | "clean" | "fetch", arg, delegates, res, ret, exists, ns}; `reset`     *)
+(* Records: {op: "reset" | "clean" | "fetch" | "breakid", arg, delegates, res, ret, exists, ns,  *)
+(* iddoc}; `reset`                                                                                *)
 (* starts a new run with the given delegate set and namespace states.                            *)
 (*  * TNext just loads every recorded step into the module's variables (last = the step with its *)
 (*    pre-state): the module's property invariants are then evaluated on the real executions.    *)
@@ -19,15 +20,15 @@ tvars == <<vars, l>>
 NsOf(r) == [n \in TNode |-> r.ns[n]]
 RetOf(r) == ToSet(r.ret)
 
-TInit == /\ l = 1 /\ exists = TRUE /\ ns = [n \in TNode |-> "absent"] /\ delegates = {"L"}
+TInit == /\ l = 1 /\ exists = TRUE /\ ns = [n \in TNode |-> "absent"] /\ delegates = {"L"} /\ iddoc = "ok"
          /\ last = [op |-> "init", pre |-> [n \in TNode |-> "absent"], res |-> "ok", ret |-> {}]
          /\ hist = <<>>
 
-Load(r) == /\ exists' = r.exists /\ ns' = NsOf(r) /\ delegates' = ToSet(r.delegates)
+Load(r) == /\ exists' = r.exists /\ ns' = NsOf(r) /\ delegates' = ToSet(r.delegates) /\ iddoc' = r.iddoc
            /\ last' = [op |-> IF r.op = "reset" THEN "init" ELSE r.op, pre |-> ns, res |-> r.res, ret |-> RetOf(r)]
            /\ hist' = IF r.op = "reset" THEN <<>>
                       ELSE Append(hist, [op |-> r.op, arg |-> r.arg, pre |-> ns, res |-> r.res, ret |-> RetOf(r),
-                                         exists |-> r.exists, ns |-> NsOf(r)])
+                                         exists |-> r.exists, ns |-> NsOf(r), iddoc |-> r.iddoc])
 
 TNext == l <= Len(Rec) /\ l' = l + 1 /\ Load(Rec[l])
 
